@@ -53,10 +53,9 @@ structure SInv (s : Session) : Prop where
 theorem sinv_fresh (i r : Bool) : SInv (Session.fresh i r) := by
   constructor <;> simp [Session.fresh]
 
-theorem setup_sinv (s : Session) (v mtu ws : Nat) (hm : 20 ≤ mtu ∧ mtu ≤ 244) (hw : 1 ≤ ws ∧ ws ≤ 255) :
-    SInv (s.setup v mtu ws) := by
-  constructor <;> simp [Session.setup] <;> try omega
-  · split <;> omega
+theorem setup_sinv (s : Session) (v mtu ws now : Nat) (hm : 20 ≤ mtu ∧ mtu ≤ 244) (hw : 1 ≤ ws ∧ ws ≤ 255) :
+    SInv (s.setup v mtu ws now) := by
+  constructor <;> simp only [Session.setup] <;> (try split) <;> (try simp) <;> omega
 
 
 /-- the outcome of an operation: either a new state satisfying `P`, or a clean error -/
@@ -86,8 +85,8 @@ theorem decodeResp_err {p : List Nat} {e : Fail} (h : decodeResp p = .error e) :
   split at h <;> simp at h
   subst h; rfl
 
-theorem handshakeReq_clean (s : Session) (g : Option Nat) (h : Hdr) (p : List Nat) :
-    Clean (s.processRxHandshakeReq g h p) SInv := by
+theorem handshakeReq_clean (s : Session) (g : Option Nat) (h : Hdr) (p : List Nat) (now : Nat) :
+    Clean (s.processRxHandshakeReq g h p now) SInv := by
   unfold Session.processRxHandshakeReq
   split
   · simp [Clean, Fail.isPanic]
@@ -106,8 +105,8 @@ theorem handshakeReq_clean (s : Session) (g : Option Nat) (h : Hdr) (p : List Na
       · simp only [Clean]
         apply setup_sinv <;> omega
 
-theorem handshakeResp_clean (s : Session) (h : Hdr) (p : List Nat) (hp : ∀ b ∈ p, b < 256) :
-    Clean (s.processRxHandshakeResp h p) SInv := by
+theorem handshakeResp_clean (s : Session) (h : Hdr) (p : List Nat) (now : Nat) (hp : ∀ b ∈ p, b < 256) :
+    Clean (s.processRxHandshakeResp h p now) SInv := by
   unfold Session.processRxHandshakeResp
   split
   · simp [Clean, Fail.isPanic]
@@ -339,8 +338,8 @@ theorem processRx_clean (s : Session) (hs : SInv s) (g : Option Nat) (data : Lis
     unfold Session.processRxSeg
     split
     · split
-      · exact handshakeResp_clean s h p c.2
-      · exact handshakeReq_clean s g h p
+      · exact handshakeResp_clean s h p now c.2
+      · exact handshakeReq_clean s g h p now
     · exact processRxData_clean s hs h c.1 p now
 
 
@@ -595,6 +594,9 @@ theorem acceptIncoming_inv {r : RecvWindow} {h : Hdr} {p : List Nat} {mtu now : 
   rename_i h4
   split at hok
   · cases hok
+  rename_i h4b
+  split at hok
+  · cases hok
   rename_i h5
   split at hok
   · cases hok
@@ -609,6 +611,23 @@ theorem acceptIncoming_inv {r : RecvWindow} {h : Hdr} {p : List Nat} {mtu now : 
   · simpa using h6
   · simpa using h7
 
+
+/-- an accepted segment is not a continue / ending segment outside an SDU -/
+theorem acceptIncoming_not_orphan {r : RecvWindow} {h : Hdr} {p : List Nat} {mtu now : Nat} {r' : RecvWindow}
+    (hok : r.acceptIncoming h p mtu now = .ok r') : orphanSegment r h = false := by
+  unfold RecvWindow.acceptIncoming at hok
+  split at hok
+  · cases hok
+  split at hok
+  · cases hok
+  split at hok
+  · cases hok
+  split at hok
+  · cases hok
+  split at hok
+  · cases hok
+  rename_i h4b
+  simpa using h4b
 
 theorem integrity_hs {r : RecvWindow} {h : Hdr} {n mtu : Nat} (hc : r.checkDataIntegrity h n mtu = true) :
     h.hs = false := by
